@@ -286,6 +286,7 @@ def run(ctx):
     dyndep_cycle_family(ctx, rng, 150 if quick else 3000)
     dyndep_binding_cycle_family(ctx, rng, 150 if quick else 3000)
     mixed_cycle_family(ctx, rng, 200 if quick else 4000)
+    mixed_cycle_family(ctx, rng, 200 if quick else 3000, static=True)
     ctx.rule = ("all graphs with 1..2 statements over 3 files (1 explicit + optional implicit output; each other file: none / explicit / "
                 "implicit / order-only / validation), every %d-th graph with 3 statements over 4 files, random graphs of 4..%d statements "
                 "with planted back edges, validations nested 1..3 deep with the cycle behind the last level, stale-record and dyndep mid-build families; distinct_nontrivial = distinct scenarios whose "
@@ -397,8 +398,12 @@ def dyndep_cycle_family(ctx, rng, n):
         judge(ctx, scn, sc, step, r[0]["trace"], extra, "/dyndep-mid-build")
 
 
-def mixed_cycle_family(ctx, rng, n):
-    """A cycle that exists only in the union of two kinds of discovered information and appears in the middle of a build:
+def mixed_cycle_family(ctx, rng, n, static=False):
+    """(static=True: the same graphs, but the dyndep file that closes the cycle is regenerated by a build of its own first, so
+    that it is on disk and current - "present at start" - when the judged build scans the graph; what then decides is which
+    side the scan reaches first, the consumer F of the file that is to become an output, or the statement E the dyndep file
+    serves: the targets are named one by one on the command line.)
+    A cycle that exists only in the union of two kinds of discovered information and appears in the middle of a build:
     F's recorded dependencies (deps log / depfile, from an earlier build) name a plain header x.h; a dyndep file regenerated
     in this build declares x.h an implicit output of E, which consumes F's output.  e.out -> f.o -> x.h -> (E)."""
     jobs = []
@@ -423,14 +428,18 @@ def mixed_cycle_family(ctx, rng, n):
         E[rng.choice(("oins", "iins"))] = ["dd"]
         stmts = [F] + chain + [scan, E]
         rng.shuffle(stmts)
-        sc = {"id": "C17-M-%d-%d" % (ctx.seed, k), "pools": {}, "defaults": [], "sources": srcs, "stmts": stmts}
+        sc = {"id": "C17-M%s-%d-%d" % ("S" if static else "", ctx.seed, k), "pools": {}, "defaults": [], "sources": srcs, "stmts": stmts}
         sc2 = copy.deepcopy(sc)
         sc2["sources"]["e.src"] = "#provides %s\n// served\n" % ("x.h" if cyc else "side.h")
         steps = [{"op": "build", "targets": [], "j": 2, "k": 1, "sched": {"mode": "prng", "seed": 1}},
                  {"op": "write", "path": "e.src", "content": sc2["sources"]["e.src"]}]
+        if static:
+            steps.append({"op": "build", "targets": ["dd"], "j": 1, "k": 1, "sched": {"mode": "prng", "seed": 1}})
         if rng.random() < 0.7:
             steps.append({"op": "touch", "path": "f.c"})       # F out of date on its own account, its output still there
         tg = rng.choice(([], [], ["e.out"], ["e.out", "f.o"], ["f.o"]))
+        if static:
+            tg = rng.choice((["f.o", "e.out"], [prev, "e.out"], ["e.out"], ["e.out", "f.o"], ["e.out", prev]))
         steps.append({"op": "build", "targets": tg, "j": rng.choice((1, 2, 3)), "k": 1, "sched": {"mode": "prng", "seed": rng.randint(1, 10 ** 6)}})
         jobs.append((simlib.scenario_json(sc, steps), sc2, steps[-1], (cyc, declared)))
     res = {}
@@ -441,7 +450,7 @@ def mixed_cycle_family(ctx, rng, n):
     for scn, sc2, step, (cyc, declared) in jobs:
         r = res.get(scn["id"])
         builds = [x for x in (r or []) if x.get("op") == "build"]
-        if len(builds) < 2 or builds[-1].get("skipped"):
+        if len(builds) < (3 if static else 2) or builds[-1].get("skipped") or (static and builds[1]["trace"]["result"].get("exit") != 0):
             ctx.inconclusive += 1
             continue
         t0, t = builds[0]["trace"], builds[-1]["trace"]
@@ -461,7 +470,7 @@ def mixed_cycle_family(ctx, rng, n):
             err = t["result"].get("err") or ""
             started = [e["o"] for e in t["events"] if e["e"] == "S"]
             if cyc and in_closure:
-                ctx.count("cyclic_cases/mixed-mid-build")
+                ctx.count("cyclic_cases/mixed-" + ("at-start" if static else "mid-build"))
                 ctx.nontrivial(scn["id"])
                 if t["result"].get("exit") == 0 or "dependency cycle: " not in err:
                     # where was F when the dyndep file was loaded (= when its producer finished)?
@@ -469,6 +478,8 @@ def mixed_cycle_family(ctx, rng, n):
                     f_done_first = "f.o" in fin and (("dd" not in fin) or fin.index("f.o") < fin.index("dd"))
                     f_ran = "f.o" in started
                     state = "consumer-already-finished" if f_done_first else ("consumer-clean" if not f_ran else "consumer-pending")
+                    if static:
+                        state = "at-start/consumer-scanned-" + ("later" if tg[0] == "e.out" else "first")
                     ctx.violation("C17/cycle-not-diagnosed/%s+dyndep-output/%s" % ("declared-input" if declared else "recorded-dependency", state),
                                   "scenario %s targets=%s: f.o %s x.h and the dyndep file loaded in this build makes x.h an output "
                                   "of the statement that consumes f.o, yet ninja exits %s (%r); started %s, finished %s" %
@@ -483,7 +494,7 @@ def mixed_cycle_family(ctx, rng, n):
                     continue
                 ctx.count("cycles_diagnosed_and_validated")
             else:
-                ctx.count("acyclic_cases/mixed-mid-build")
+                ctx.count("acyclic_cases/mixed-" + ("at-start" if static else "mid-build"))
                 if "dependency cycle" in err or t["result"].get("exit") != 0:
                     ctx.violation("C17/false-cycle/mixed", "scenario %s targets=%s: no cycle in the requested closure, ninja exits %s: %r" %
                                   (scn["id"], tg, t["result"].get("exit"), err), rep)
